@@ -7,7 +7,7 @@ package hx
 // the case asks for limits.
 //
 //   input : <id> <hex source> [cpu=N] [mem=N] [flags=N] [args=v,v,..] [mode=t|b|bt] [chunk=name]
-//   output: <id> <status> T:<ev>;<ev>.. R:<v>,<v>.. E:<hexmsg> O:<hex stdout> X:<ctx status>,<used cpu>,<used mem> A:<go heap bytes allocated, with stats=1> W:<wall-clock microseconds>
+//   output: <id> <status> T:<ev>;<ev>.. R:<v>,<v>.. E:<hexmsg> O:<hex stdout> X:<ctx status>,<used cpu>,<used mem> A:<go heap bytes allocated, with stats=1> W:<wall-clock microseconds, with wall=1>
 //   status: ok | compile_error | error | killed | gopanic
 
 import (
@@ -121,6 +121,9 @@ type LuaCase struct {
 	Chunk   string
 	Limited bool
 	Stats   bool
+	// WallOut: append W:<wall-clock microseconds, with wall=1> to the result line (wall=1); off by default so that result
+	// lines of two runs of the same case stay identical
+	WallOut bool
 	// Setup, if not nil, is called on the fresh runtime before the chunk is loaded
 	Setup func(r *rt.Runtime)
 }
@@ -164,6 +167,8 @@ func ParseLuaCase(line string) (lc LuaCase, ok bool) {
 			}
 		case "stats":
 			lc.Stats = v == "1"
+		case "wall":
+			lc.WallOut = v == "1"
 		case "mode":
 			lc.Mode = v
 		case "chunk":
@@ -174,14 +179,15 @@ func ParseLuaCase(line string) (lc LuaCase, ok bool) {
 }
 
 type LuaResult struct {
-	Status string
-	Trace  []string
-	Ret    string
-	Errmsg string
-	Out    string
-	Ctx    string
-	Alloc  uint64 // growth of MemStats.HeapSys while loading+running the chunk (Stats only)
-	Wall   int64  // wall-clock microseconds spent loading+running the chunk
+	Status  string
+	Trace   []string
+	Ret     string
+	Errmsg  string
+	Out     string
+	Ctx     string
+	Alloc   uint64 // growth of MemStats.HeapSys while loading+running the chunk (Stats only)
+	Wall    int64  // wall-clock microseconds spent loading+running the chunk (only with wall=1)
+	WallSet bool
 }
 
 func HexOrDash(b []byte) string {
@@ -220,7 +226,9 @@ func RunLuaCase(lc LuaCase) (res LuaResult) {
 	}()
 	t := r.MainThread()
 	w0 := time.Now()
-	defer func() { res.Wall = time.Since(w0).Microseconds() }()
+	if lc.WallOut {
+		defer func() { res.Wall, res.WallSet = time.Since(w0).Microseconds(), true }()
+	}
 	if lc.Stats {
 		var ms0 goruntime.MemStats
 		goruntime.GC()
@@ -288,7 +296,11 @@ func FormatLuaResult(id string, res LuaResult) string {
 	if len(res.Trace) > 0 {
 		tr = strings.Join(res.Trace, ";")
 	}
-	return fmt.Sprintf("%s %s T:%s R:%s E:%s O:%s X:%s A:%d W:%d", id, res.Status, tr, res.Ret, res.Errmsg, res.Out, res.Ctx, res.Alloc, res.Wall)
+	line := fmt.Sprintf("%s %s T:%s R:%s E:%s O:%s X:%s A:%d", id, res.Status, tr, res.Ret, res.Errmsg, res.Out, res.Ctx, res.Alloc)
+	if res.WallSet {
+		line += fmt.Sprintf(" W:%d", res.Wall)
+	}
+	return line
 }
 
 // LuaEngine is the stdin/stdout loop of the "lua" engine.
